@@ -125,6 +125,11 @@ func c19Round(c *run.C) {
 		}
 	}
 	inlOut := make([][][]byte, G)
+	// targets filled through the user extension points (gotype.Expander, a
+	// state registered with gotype.Unfolders): each goroutine's own unfolder
+	// hands its own events to its own target's state, yielding between events
+	usrOut := make([][]c19UserTarget, G)
+	usrErr := make([]string, G)
 
 	// per-goroutine seeds drawn up front: the generator itself is not shared
 	seeds := make([]uint64, G)
@@ -263,6 +268,7 @@ func c19Round(c *run.C) {
 					}
 				}
 			}()
+			usrOut[g], usrErr[g] = c19UserStates(g, true)
 			for round := 0; round < 2; round++ {
 				perm := make([]int, len(pairs))
 				for i := range perm {
@@ -397,6 +403,18 @@ func c19Round(c *run.C) {
 		}
 		c.Observe("concurrent_inline_folds", len(inlOut[g]))
 	}
+	for g := 0; g < G; g++ {
+		want, werr := c19UserStates(g, false)
+		if usrErr[g] != werr {
+			c.Violationf("concurrent-error", "concurrent:user-state:error", "goroutine %d of %d: unfolding into targets with a user unfold state returned %q concurrently and %q alone", g, G, usrErr[g], werr)
+			return
+		}
+		if !reflect.DeepEqual(usrOut[g], want) {
+			c.Violationf("concurrent-mismatch", "concurrent:user-state", "goroutine %d of %d: targets with a user unfold state (Expander / registered state) were told something else than when the same unfolder runs alone\nconcurrent=%+v\nalone     =%+v", g, G, usrOut[g], want)
+			return
+		}
+		c.Observe("concurrent_user_state_unfolds", len(want))
+	}
 	c.Observe("differently_configured_iterator_folds", 2*G)
 	// verdicts (main goroutine only)
 	for g := 0; g < G; g++ {
@@ -460,4 +478,77 @@ func init() {
 			{Name: "rounds", Build: "race", N: tierN(480, 30000), Case: c19Round, Workers: 4, Require: []string{"pipelines_completed", "rounds_with_4_goroutines", "rounds_with_16_goroutines", "rounds_with_64_goroutines"}},
 		},
 	})
+}
+
+// c19UserTarget is filled partly by the library's struct unfolder (A, Z) and
+// partly by user unfold states (X: gotype.Expander, S: state registered with
+// gotype.Unfolders).
+type c19UserTarget struct {
+	A string
+	X zoo.Recorder
+	S zoo.Stateful
+	Z int
+}
+
+// c19UserStates unfolds three documents that carry goroutine-specific content
+// into c19UserTarget values with the goroutine's own unfolder (event calls,
+// and through the JSON parser); yield makes it give up the processor between
+// events so that several unfolders are inside a user state at the same time.
+func c19UserStates(g int, yield bool) (out []c19UserTarget, errs string) {
+	defer func() {
+		if rec := recover(); rec != nil {
+			errs = fmt.Sprintf("panic: %v", rec)
+		}
+	}()
+	u, err := gotype.NewUnfolder(nil, gotype.Unfolders(zoo.UserUnfolders()...))
+	if err != nil {
+		return nil, "NewUnfolder: " + err.Error()
+	}
+	// (mon.Replay keeps harness-global state for its buffer alternation: not for goroutines)
+	replay := func(s val.Stream, v structform.Visitor) error {
+		ev := structform.EnsureExtVisitor(v)
+		for _, e := range s {
+			if err := mon.Call(ev, e, false); err != nil {
+				return err
+			}
+		}
+		return nil
+	}
+	for rep := 0; rep < 3; rep++ {
+		id := fmt.Sprintf("g%d-%d", g, rep)
+		sub := val.Stream{{K: val.EObjStart, N: -1}, {K: val.EKey, S: "k" + id}, {K: val.EInt64, I: int64(g*10 + rep)},
+			{K: val.EKeyRef, S: "s"}, {K: val.EStringRef, S: "v" + id}, {K: val.EKey, S: "l"},
+			{K: val.EArrStart, N: 2}, {K: val.EInt8, I: int64(g % 100)}, {K: val.EString, S: id}, {K: val.EArrEnd}, {K: val.EObjEnd}}
+		doc := val.Stream{{K: val.EObjStart, N: 4}, {K: val.EKey, S: "a"}, {K: val.EString, S: "a" + id}, {K: val.EKey, S: "x"}}
+		doc = append(doc, sub...)
+		doc = append(doc, val.Event{K: val.EKey, S: "s"})
+		doc = append(doc, sub...)
+		doc = append(doc, val.Event{K: val.EKey, S: "z"}, val.Event{K: val.EInt, I: int64(g)}, val.Event{K: val.EObjEnd})
+		var t c19UserTarget
+		if err := u.SetTarget(&t); err != nil {
+			return out, "SetTarget: " + err.Error()
+		}
+		var sink structform.Visitor = u
+		if yield {
+			y := mon.NewMonitor()
+			y.NoRecord = true
+			y.Next = structform.EnsureExtVisitor(u)
+			y.OnEvent = func() { runtime.Gosched() }
+			sink = y
+		}
+		if rep == 2 {
+			// through the JSON parser, one byte per Write
+			var w mon.CountingWriter
+			if err := replay(doc, codec.JSON.NewVisitor(&w, codec.JSONOpts{})); err != nil {
+				return out, "encode: " + err.Error()
+			}
+			if _, err := codec.JSON.ParseReader(&c19Reader{data: w.Buf, n: 1}, sink); err != nil {
+				return out, "parse+unfold: " + err.Error()
+			}
+		} else if err := replay(doc, sink); err != nil {
+			return out, "unfold: " + err.Error()
+		}
+		out = append(out, t)
+	}
+	return out, ""
 }
